@@ -387,7 +387,7 @@ def run_shard(ctx):
         ctx.case((text, repr(cfg)), text.count("\n") >= 2)
         if i < 2:
             ctx.sample({"kind": "doc", "sub": sub, "text": text[:300], "cfg": cfg})
-        if (i & 0x1F) == 0 and ctx.time_left() < (22 if quick else 500):
+        if (i & 0x1F) == 0 and ctx.time_left() < ctx.budget_s * 0.42:
             break
     nf = 250 if quick else 12000
     for i in range(nf):
@@ -396,7 +396,7 @@ def run_shard(ctx):
         ctx.case(repr(case), True)
         if i == 0:
             ctx.sample(case)
-        if (i & 0xF) == 0 and ctx.time_left() < (12 if quick else 300):
+        if (i & 0xF) == 0 and ctx.time_left() < ctx.budget_s * 0.24:
             break
     ns = 60 if quick else 4000
     for i in range(ns):
